@@ -79,3 +79,46 @@ Example C01_alignment_example :
   let dout := [PFl [PAx 1 2 false; PAx 3 4 false]; PAx 2 3 false] in
   align_ok din dout = true /\ bshape din dout = [1; 4; 1] /\ aligned_idx din dout [(3, 2)] = [0; 2; 0].
 Proof. vm_compute. repeat split; reflexivity. Qed.
+
+(* Reductions.  Model/Lower.v ([lower_reduce]): the tensor is reshaped to its leaf axes, the backend's reduction is called
+   with axis = the positions of the bracketed leaves (the kernel regenerated from _expr_to_axis), and the result is
+   rearranged into the output expression.  The backend's reduction itself is not modelled (trusted base: numpy's
+   sum/max/... over axis=); the three statements below are everything around it, for every nesting, number of axes and
+   size: (1) the reduction sees each element at the coordinates of its leaf axes, (2) axis= is exactly the bracketed
+   positions, and removing them from the leaf coordinates and lengths leaves those of the un-bracketed leaves in order -
+   the coordinates at which any reduction over axis= returns its results -, (3) what the reduction returns there is found
+   in the result at the position the output expression gives it.  The correspondence check (harness/c01.py) compares the
+   model's term with the graph einx traces for generated reductions. *)
+Theorem C01_reduction_sees_the_leaf_view :
+  forall (V : Type) (inp : nat -> entries V) F BC CC (din dout : list pex),
+  reduce_ok din dout = true ->
+  forall (rho : env) (v : V), in_bounds rho din ->
+  In (map (pidx rho) din, v) (inp 0%nat) ->
+  In (map (lookup rho) (lnames din), v) (meval V inp F BC CC (reduce_arg din)).
+Proof. intros V inp F BC CC din dout Hok rho v. exact (reduce_arg_is_the_leaf_view V inp F BC CC din dout Hok rho v). Qed.
+Print Assumptions C01_reduction_sees_the_leaf_view.
+
+Theorem C01_reduction_axes_are_the_brackets :
+  forall (din : list pex),
+  (forall k, In k (reduce_axes din) <-> nth k (lmarks din) false = true) /\
+  forall rho, drop_axes (reduce_axes din) (map (lookup rho) (lnames din)) = map (lookup rho) (lnames (kept din)) /\
+              drop_axes (reduce_axes din) (llens din) = llens (kept din).
+Proof. intros din. split; [exact (reduce_axes_are_the_brackets din)|exact (reduce_drops_to_kept_coordinates din)]. Qed.
+Print Assumptions C01_reduction_axes_are_the_brackets.
+
+Theorem C01_reduction_result_is_placed_by_the_output :
+  forall (V : Type) (inp : nat -> entries V) F BC CC f (din dout : list pex),
+  reduce_ok din dout = true ->
+  forall (rho : env) (v : V), in_bounds rho (kept din) -> in_bounds rho dout ->
+  In (map (lookup rho) (lnames (kept din)), v) (reduced V inp F BC CC f din) ->
+  In (map (pidx rho) dout, v) (meval V inp F BC CC (lower_reduce f din dout)).
+Proof. intros V inp F BC CC f din dout Hok rho v. exact (lower_reduce_correct V inp F BC CC f din dout Hok rho v). Qed.
+Print Assumptions C01_reduction_result_is_placed_by_the_output.
+
+Example C01_reduction_example :
+  (* "a ([b] c) -> c a" with lengths 2, 3, 4: np.sum(reshape(x, (2, 3, 4)), axis=1), transposed *)
+  let din := [PAx 1 2 false; PFl [PAx 2 3 true; PAx 3 4 false]] in
+  let dout := [PAx 3 4 false; PAx 1 2 false] in
+  reduce_ok din dout = true /\ reduce_axes din = [1%nat] /\ llens (kept din) = [2; 4] /\
+  drop_axes (reduce_axes din) [7; 8; 9] = [7; 9].
+Proof. vm_compute. repeat split; reflexivity. Qed.
